@@ -62,6 +62,9 @@ def run(prop, tier, seed, replay=None):
         for j, (f, p, pr, k) in enumerate(combos):
             if len(FLAGSEQS[k]) >= 2 and (j % 3 == 0 or not quick):
                 jobs.append({"frontend": f, "prefix": p, "principal": pr, "flags": FLAGSEQS[k], "storage": "bare"})
+            # ... or moves to another volume and is linked back
+            if len(FLAGSEQS[k]) >= 2 and (j % 3 == 1 or not quick):
+                jobs.append({"frontend": f, "prefix": p, "principal": pr, "flags": FLAGSEQS[k], "storage": "moved"})
     with multiprocessing.get_context("fork").Pool(12) as pool:
         outs = pool.map(_work, jobs, chunksize=1)
     runs = []
